@@ -98,16 +98,28 @@ def _resolved(I, addr, epoch):
     return carry(weights_of(I, addr, LP1), epoch)
 
 
-def _ob_weights(op):
+def _ob_weights(op, pieces=1):
     def s(I):
         b, X, v = c05.world(I)
         # representation invariant: a user's weight is the sum of the weights of their open positions as filled
-        # (alice holds one position filled in one piece); the total covers it
-        wst, wr = I.try_call('calculate_weight', [Ref([coin_v(LP1, v['pa'])], 0), 30 * DAY], CR)
-        if wst != 'ok' or not is_ok(wr):
-            raise Infeasible()
+        # (alice holds one position filled in one piece, or -- pieces=2 -- created with p1 and expanded by pa-p1); the total covers it
+        if pieces == 1:
+            wst, wr = I.try_call('calculate_weight', [Ref([coin_v(LP1, v['pa'])], 0), 30 * DAY], CR)
+            if wst != 'ok' or not is_ok(wr):
+                raise Infeasible()
+            w_filled = wr.f[0]
+        else:
+            p1 = I.sym('p1', lo=1, hi=U128 // 64)
+            I.assume(p1 < v['pa'])
+            ws = []
+            for part in (p1, simp(v['pa'] - p1)):
+                wst, wr = I.try_call('calculate_weight', [Ref([coin_v(LP1, part)], 0), 30 * DAY], CR)
+                if wst != 'ok' or not is_ok(wr):
+                    raise Infeasible()
+                ws.append(wr.f[0])
+            w_filled = simp(ws[0] + ws[1])
         wa0 = _resolved(I, 'alice', c05.E + 1)
-        I.assume(smt.Eq(wa0, wr.f[0]))
+        I.assume(smt.Eq(wa0, w_filled))
         T0 = _resolved(I, FM, c05.E + 1)
         before = {u: _resolved(I, u, c05.E + 1) for u in ('alice', 'bob', 'carol')}
         cur_before = {u: _resolved(I, u, c05.E) for u in ('alice', 'bob', 'carol', FM)}
@@ -125,6 +137,10 @@ def _ob_weights(op):
         T1 = _resolved(I, FM, c05.E + 1)
         after = {u: _resolved(I, u, c05.E + 1) for u in ('alice', 'bob', 'carol')}
         du = sum((after[u] - before[u]) for u in after)
+        if pieces == 2:
+            # the inductive step of `total >= sum of the users' weights`: the total never drops by more than the users' weights do
+            I.check('total_never_drops_by_more_than_the_users_weights', T1 - T0 >= du)
+            return
         I.check('total_moves_exactly_with_the_users', smt.Eq(T1 - T0, du))
         I.check('total_still_covers_the_users', T1 >= sum(after.values()))
         for u in ('alice', 'bob', 'carol', FM):
@@ -158,3 +174,11 @@ for _op in c05.OPS:
                                    'a user left without open positions has no weight and no history' % _op,
                bounds='state of C05 with the weight of alice equal to the weight of her single-piece position; symbolic amounts', covers=['ok'],
                replay=_replay_w(_op))(_ob_weights(_op))
+
+
+for _op in ('expand_position', 'close_full', 'close_partial', 'emergency_open'):
+    obligation('C10', 'S2.two_piece_position_%s' % _op, entries=['execute', 'update_weights', 'get_latest_address_weight', 'reconcile_user_state', 'calculate_weight'],
+               kind='S', statement='%s on a position that was created with p1 and topped up with pa-p1 (user weight = weight(p1) + weight(pa-p1), which can be below '
+                                   'weight(pa) by rounding): the total weight never drops by more than the users weights do, so the total keeps covering the sum' % _op,
+               bounds='state of C05; alice holds one position filled in two pieces with symbolic sizes; symbolic amounts', covers=['ok'],
+               replay=_replay_w(_op))(_ob_weights(_op, pieces=2))
